@@ -53,6 +53,24 @@ def readAll (ends : List Nat) (total cnt : Nat) : Nat → Nat → List Nat × Bo
     | .ok c => let (cs, done) := readAll ends total cnt fuel (off + c); (c :: cs, done)
     | _ => ([], false)
 
+/-- the records of the reply `dirents[off : off+c]`, each named by its end offset in the listing -/
+def recordsIn (ends : List Nat) (off c : Nat) : List Nat := ends.filter (fun e => off < e && e ≤ off + c)
+
+/-- `File.Readdir(0)` (clnt_read.go): read with the client's count until an empty reply and decode
+    every reply record by record.  `foff` is `file.offset` (advanced by `File.Read` by the bytes
+    returned), `doff` the local `offset` (advanced by `d.Size+2` per decoded record: to the end of
+    the last record decoded) that the deferred assignment leaves in `file.offset`.  Result: the
+    entries in the order returned, and the offset left behind; `none`: an Rerror, or out of fuel. -/
+def readdir0 (ends : List Nat) (total cnt : Nat) : Nat → Nat → Nat → List Nat → Option (List Nat × Nat)
+  | 0, _, _, _ => none
+  | fuel + 1, foff, doff, acc =>
+    match window ends total foff cnt with
+    | .ok 0 => some (acc, doff)
+    | .ok c =>
+      let recs := recordsIn ends foff c
+      readdir0 ends total cnt fuel (foff + c) (recs.getLastD doff) (acc ++ recs)
+    | _ => none
+
 /-! ### file reads and writes (Clnt.Read/Write, File.ReadAt/Readn/WriteAt/Written, Ufs.Read/Write) -/
 
 /-- `os.File.ReadAt(buf[:n], off)` on a file with these contents (assumed POSIX behaviour) -/
